@@ -548,7 +548,7 @@ out:
 /* The duration / order time / loop counter oracle under a configuration: a fresh context, the module loaded,
  * the configuration applied (a rescan happens inside the library where the configuration calls for one), then every
  * sequence rendered from its entry point.  Only the oracle lines are kept, tagged with the configuration. */
-enum { CFG_CFLAGS_VBLANK, CFG_CFLAGS_OFF, CFG_FLAGS_LOAD, CFG_MODE, CFG_VOICES };
+enum { CFG_CFLAGS_VBLANK, CFG_CFLAGS_OFF, CFG_FLAGS_LOAD, CFG_MODE, CFG_VOICES, CFG_MODE_VOICES };
 
 static void run_cfg(const char *path, int kind, int arg, int rate, int maxframes)
 {
@@ -596,6 +596,16 @@ static void run_cfg(const char *path, int kind, int arg, int rate, int maxframes
 			goto out;
 		rc = xmp_set_player(opaque, XMP_PLAYER_MODE, arg);
 		xmp_end_player(opaque);
+		break;
+	case CFG_MODE_VOICES:
+		/* a player mode (its read_event flavour) together with a small voice count: arg = mode | voices << 8 */
+		snprintf(tag, sizeof(tag), "mode%d_voices%d", arg & 0xff, arg >> 8);
+		if (xmp_start_player(opaque, rate, XMP_FORMAT_MONO | XMP_FORMAT_8BIT) != 0)
+			goto out;
+		rc = xmp_set_player(opaque, XMP_PLAYER_MODE, arg & 0xff);
+		xmp_end_player(opaque);
+		if (rc == 0)
+			rc = xmp_set_player(opaque, XMP_PLAYER_VOICES, arg >> 8);
 		break;
 	default:
 		snprintf(tag, sizeof(tag), "voices%d", arg);
@@ -714,7 +724,6 @@ int main(int argc, char **argv)
 			/* configurations: the VBlank rescan always; one more VBlank route, one player mode and one small
 			 * voice count chosen by the file name (IT: one voice always) */
 			{
-				static const int voc[3] = { 1, 2, 4 };
 				size_t n = strlen(argv[a]);
 				int is_it = n > 3 && strcmp(argv[a] + n - 3, ".it") == 0;
 				run_cfg(argv[a], CFG_CFLAGS_VBLANK, 0, rate, maxframes);
@@ -729,9 +738,15 @@ int main(int argc, char **argv)
 						marker_mode_matters ? mmode[(sd >> 16) % 4] : 1 + (int)((sd >> 16) % 10),
 						rate, maxframes);	/* C18_CFG_MODE: replay of a recorded failure */
 				}
-				run_cfg(argv[a], CFG_VOICES, is_it ? 1 : voc[(sd >> 24) % 3], rate, maxframes);
-				if (is_it)
-					run_cfg(argv[a], CFG_VOICES, voc[1 + ((sd >> 24) & 1)], rate, maxframes);
+				/* small voice counts: one voice always (every channel but the first loses the voice race), one
+				 * of 2 / 3 / 4, and one voice under another read_event flavour (MOD / FT2 / ST3 / IT player mode) */
+				{
+					static const int vmode[4] = { XMP_MODE_MOD, XMP_MODE_FT2, XMP_MODE_ST3, XMP_MODE_IT };
+					(void)is_it;
+					run_cfg(argv[a], CFG_VOICES, 1, rate, maxframes);
+					run_cfg(argv[a], CFG_VOICES, 2 + (int)((sd >> 24) % 3), rate, maxframes);
+					run_cfg(argv[a], CFG_MODE_VOICES, vmode[(sd >> 28) % 4] | ((1 + (int)((sd >> 30) & 1)) << 8), rate, maxframes);
+				}
 			}
 		}
 		printf("endcase\n");
